@@ -1,6 +1,10 @@
 package checks
 
 import (
+	"fmt"
+	"strings"
+
+	"github.com/dave/jennifer/jen"
 	"verif/internal/ev"
 	"verif/internal/imp"
 )
@@ -47,7 +51,7 @@ var c04Check = &impCheck{
 	dev:      [2]int{3, 4},
 	fams: []*family{
 		{name: "wrappers", ctors: []string{"NewFile"}, paths: []string{"a/f", "b/f", "fmt", "x/dot", "app/vendor/a/f"}, names: c04Names(), canon: []string{"a/f", "x/other"},
-			aliases: []string{"f", ".", "_"}, prefixes: []string{"pkg"}, maxRefs: 3, freeRefs: 2, wrappers: allWrappers, anon: true, extra: true, bigHints: c04BigHints},
+			aliases: []string{"f", ".", "_"}, prefixes: []string{"pkg"}, maxRefs: 3, freeRefs: 2, wrappers: allWrappers, anon: true, extra: true, bigHints: c04BigHints, oneDict: true},
 		{name: "local", ctors: []string{"NewFilePath", "NewFilePathName"}, local: "a.b/c", paths: []string{"a.b/c", "a.b/c/x", "fmt"}, names: map[string]string{"a.b/c/x": "x"}, canon: []string{"a.b/c/x", "a.b/c"},
 			aliases: []string{"."}, prefixes: []string{"pkg"}, maxRefs: 3, freeRefs: 3, wrappers: allWrappers, anon: true, extra: true},
 		{name: "cgo", ctors: []string{"NewFile"}, paths: []string{"C", "fmt", "a/c"}, names: map[string]string{"a/c": "c"},
@@ -56,14 +60,71 @@ var c04Check = &impCheck{
 	},
 }
 
+// c04EmptyBodies: Files whose body renders nothing (or only a comment / a blank line / one
+// declaration) with every subset of {Anon(a/f), Anon(fmt), a cgo preamble, a hint for an unused
+// path}: the anonymous imports (and "C") must be there, nothing else.
+func c04EmptyBodies(r *ev.Recorder) {
+	bodies := []struct {
+		name string
+		add  func(w *imp.World)
+	}{
+		{"no item", func(w *imp.World) {}},
+		{"Null()", func(w *imp.World) { w.F.Add(jen.Null()) }},
+		{"nil and an empty statement", func(w *imp.World) { w.F.Add(nil, &jen.Statement{}) }},
+		{"Line()", func(w *imp.World) { w.F.Line() }},
+		{"a comment", func(w *imp.World) { w.F.Comment("nothing here") }},
+		{"an empty Do", func(w *imp.World) { w.F.Do(func(*jen.Statement) {}) }},
+		{"one declaration", func(w *imp.World) { w.F.Var().Id("x").Op("=").Lit(1) }},
+		{"a Dict with only null pairs", func(w *imp.World) { w.F.Add(jen.Dict{jen.Null(): jen.Qual("u/unused", "X")}) }},
+	}
+	imp.Bare = true
+	defer func() { imp.Bare = false }()
+	for bi, b := range bodies {
+		for mask := 0; mask < 16; mask++ {
+			for _, ctor := range []string{"NewFile", "NewFilePathName"} {
+				w := imp.New(ctor, "l/loc", imp.DefaultTrueName(map[string]string{"a/f": "f", "u/unused": "unused"}))
+				if mask&1 != 0 {
+					w.AnonImport("a/f")
+				}
+				if mask&2 != 0 {
+					w.AnonImport("fmt")
+				}
+				if mask&4 != 0 {
+					w.CgoPreamble("#include <a.h>")
+				}
+				if mask&8 != 0 {
+					w.Name("u/unused")
+				}
+				b.add(w)
+				w.Log = append(w.Log, "body: "+b.name)
+				r.Eval(1)
+				a, msg := renderAnalyze(w)
+				var probs []string
+				if a == nil {
+					probs = []string{msg}
+				} else {
+					probs = imp.CheckExact(a, w)
+					if mask&7 != 0 {
+						r.Distinct(fmt.Sprint(bi, mask, ctor))
+					}
+				}
+				if len(probs) > 0 {
+					r.Violate(ev.Violation{Signature: "c04:empty-body:" + problemKind(probs[0]), What: fmt.Sprintf("%v: %s", w.Log, probs[0]), Case: ev.JSON(impCase{Ops: w.Log}), Detail: strings.Join(probs, "\n")})
+				}
+			}
+		}
+	}
+}
+
 func init() {
 	register(&Check{ID: "C04", Level: "model_checking", Run: func(r *ev.Recorder) {
 		r.Rule = "(1) explicit-state BFS over one real File (constructor NewFilePath): references to 4 paths (one of them the local path) in 4 positions (plain, Dict key whose value is Null(), Dict value whose key is Null(), Dict value), " +
 			"ImportName, ImportAlias(p, \".\"), ImportAlias(p, \"_\"), Anon, PackagePrefix, in every order up to the depth bound, de-duplicated on a reflection dump of the File. " +
 			"(2) canonical pre-render histories for 3 path families (all 14 reference positions incl. three that must render nothing; hint tables of 12 mostly unused paths; anonymous imports; local path; a vendored copy of a referenced path; CanonicalPath set to a referenced path; cgo with 0-2 preamble blocks) with a bounded number of non-default settings. " +
 			"Oracle on the parsed output: the multiset of import specs equals {paths of rendered references (except the local path)} + {anonymous imports} (+ \"C\" when a preamble exists), each exactly once; cross-checked by go/types (no 'imported and not used', no undefined). " +
-			"distinct_nontrivial = distinct outputs of files that contain a reference or hint that must not produce an import"
+			"(3) Files without code: 8 bodies that render nothing or next to nothing x every subset of {Anon(a/f), Anon(fmt), cgo preamble, a name hint for an unused path} x 2 constructors. distinct_nontrivial = distinct outputs of files that contain a reference or hint that must not produce an import"
 		r.Assume = []string{"Anon on a path that is also referenced is counted once (the reference wins)", "histories beyond the depth / deviation bounds are outside the bound"}
 		c04Check.run(r)
+		c04EmptyBodies(r)
 	}, Replay: c04Check.replay})
 }
